@@ -115,6 +115,10 @@ theorem C19_facet_chain_offsets (sep : Nat) (fs : List Filter) (s : Text) :
     obtain ⟨b1, _, b3⟩ := key y hy
     omega
 
+/-- the two facet models agree: with no filters the threaded buffer just rebuilds the prefixes -/
+theorem C19_facet_chain_nil (sep : Nat) (s : Text) : facetChain sep [] s = facetTokens sep s :=
+  facetChain_nil sep s
+
 /-- … but the facet tokens' text is *not* the slice their offsets point to (the code never assigns
 the offsets): text `a`, second token has text `a` and offsets 0..0 -/
 theorem C19_facet_text_not_slice_counterexample :
@@ -194,11 +198,11 @@ theorem C19_collapse (l : List (Nat × Nat)) :
 /-- for any token stream satisfying the token contract, `snippet` does not panic, the fragment is
 `text[a..b]` with `a ≤ b ≤ |text|` on boundaries, and every highlight (shifted back by `a`) is an
 in-bounds range of the text on boundaries that starts inside the fragment -/
-theorem C19_fragment_bounds (s : Text) (M : Nat) (ts : List STok) (hc : SContract s ts) :
-    ∃ sn a b, snippet s M ts = some sn ∧ a ≤ b ∧ b ≤ byteLen s ∧ IsBoundary s a ∧ IsBoundary s b ∧
+theorem C19_fragment_bounds (mode : Nat) (s : Text) (M : Nat) (ts : List STok) (hc : SContract s ts) :
+    ∃ sn a b, snippet mode s M ts = some sn ∧ a ≤ b ∧ b ≤ byteLen s ∧ IsBoundary s a ∧ IsBoundary s b ∧
       sn.fragment = sliceFrom 0 s a b ∧ byteLen sn.fragment = b - a ∧
       ∀ h ∈ sn.hl, h.1 ≤ h.2 ∧ a + h.2 ≤ byteLen s ∧ IsBoundary s (a + h.1) ∧ IsBoundary s (a + h.2) := by
-  obtain ⟨frags, e, hf⟩ := search_P1 s M ts hc
+  obtain ⟨frags, e, hf⟩ := search_P1 mode s M ts hc
   simp only [snippet, e]
   cases hb : selectBest frags with
   | none =>
@@ -219,42 +223,65 @@ theorem C19_fragment_bounds (s : Text) (M : Nat) (ts : List STok) (hc : SContrac
     simp only [e1, e2]
     exact ⟨by omega, q3, q4, q5⟩
 
-/- Full statement (false, see the two counterexamples below): "…and every highlight lies inside
+/-- with the running maximum in `try_add_token` (`mode ≠ 0`, the repaired code): for **every**
+token stream satisfying the contract — no monotonicity of end offsets, no bound on the token
+length — `snippet` does not panic, every highlight lies inside the fragment on character
+boundaries of the fragment, and `to_html` does not panic -/
+theorem C19_highlights_inside (mode : Nat) (hm : mode ≠ 0) (s : Text) (M : Nat) (ts : List STok)
+    (hc : SContract s ts) :
+    ∃ sn, snippet mode s M ts = some sn ∧
+      (∀ h ∈ sn.hl, h.1 ≤ h.2 ∧ h.2 ≤ byteLen sn.fragment ∧
+        IsBoundary sn.fragment h.1 ∧ IsBoundary sn.fragment h.2) ∧
+      ∃ out, toHtml sn = some out := by
+  obtain ⟨frags, e, hf⟩ := search_P7 hm s M ts hc
+  exact snippet_inside mode s M ts frags e hf
+
+/-- … for the code as it is (`stopMode` is read from `try_add_token` by the extractor): once the
+source keeps the running maximum, the statement holds for the model the driver executes -/
+theorem C19_highlights_inside_code (hfix : stopMode ≠ 0) (s : Text) (M : Nat) (ts : List STok)
+    (hc : SContract s ts) :
+    ∃ sn, snippet stopMode s M ts = some sn ∧
+      (∀ h ∈ sn.hl, h.1 ≤ h.2 ∧ h.2 ≤ byteLen sn.fragment ∧
+        IsBoundary sn.fragment h.1 ∧ IsBoundary sn.fragment h.2) ∧
+      ∃ out, toHtml sn = some out :=
+  C19_highlights_inside stopMode hfix s M ts hc
+
+/- Full statement (false with the plain assignment `stopMode = 0`, see the counterexamples below): "…and every highlight lies inside
 the fragment, `b − a ≤ max_num_chars`". Proved parts: -/
 
 /-- if moreover the end offsets never decrease (every built-in tokenizer except the full n-gram
 enumeration; filters keep it), every highlight lies inside the fragment on boundaries of the
 fragment string, and `to_html` does not panic -/
-theorem C19_highlights_inside_partial (s : Text) (M : Nat) (ts : List STok) (hc : SContract s ts)
+theorem C19_highlights_inside_partial (mode : Nat) (s : Text) (M : Nat) (ts : List STok) (hc : SContract s ts)
     (hto : ts.Pairwise (fun a b => a.to ≤ b.to)) :
-    ∃ sn, snippet s M ts = some sn ∧
+    ∃ sn, snippet mode s M ts = some sn ∧
       (∀ h ∈ sn.hl, h.1 ≤ h.2 ∧ h.2 ≤ byteLen sn.fragment ∧
         IsBoundary sn.fragment h.1 ∧ IsBoundary sn.fragment h.2) ∧
       ∃ out, toHtml sn = some out := by
-  obtain ⟨frags, e, hf⟩ := search_P2 s M ts hc hto
-  exact snippet_inside s M ts frags e hf
+  obtain ⟨frags, e, hf⟩ := search_P2 mode s M ts hc hto
+  exact snippet_inside mode s M ts frags e hf
 
 /-- the same conclusion for token streams whose end offsets dip and recover like an n-gram
 enumeration (`RecOkN`: every new maximum of `offset_to` is immediately preceded by the previous
 maximum, and the last token holds the maximum), provided no single token is longer than
 `max_num_chars` -/
-theorem C19_highlights_inside_records_partial (s : Text) (M : Nat) (ts : List STok)
+theorem C19_highlights_inside_records_partial (mode : Nat) (s : Text) (M : Nat) (ts : List STok)
     (hc : SContract s ts) (hlen : ∀ t ∈ ts, t.to - t.from_ ≤ M)
     (hrec : RecOkN 0 0 (ts.map (·.to))) :
-    ∃ sn, snippet s M ts = some sn ∧
+    ∃ sn, snippet mode s M ts = some sn ∧
       (∀ h ∈ sn.hl, h.1 ≤ h.2 ∧ h.2 ≤ byteLen sn.fragment ∧
         IsBoundary sn.fragment h.1 ∧ IsBoundary sn.fragment h.2) ∧
       ∃ out, toHtml sn = some out := by
-  obtain ⟨frags, e, hf⟩ := search_P6 s M ts hc hlen hrec
-  exact snippet_inside s M ts frags e hf
+  obtain ⟨frags, e, hf⟩ := search_records mode s M ts hc hlen hrec
+  exact snippet_inside mode s M ts frags e hf
 
 /-- … instantiated: the full n-gram tokenizer (any `min ≤ max`), any text of valid scalar values,
 any query terms, any `max_num_chars` that no single n-gram exceeds (e.g. `4·max_gram` bytes):
 `snippet` and `to_html` do not panic and every highlight lies inside the fragment -/
-theorem C19_ngram_analyzer_snippet_safe_partial (s : Text) (hv : ∀ c ∈ s, c.code < 0x110000)
+theorem C19_ngram_analyzer_snippet_safe_partial (mode : Nat) (s : Text) (hv : ∀ c ∈ s, c.code < 0x110000)
     (minG maxG : Nat) (hmin : 0 < minG) (hle : minG ≤ maxG) (M : Nat) (sc : Token → Option Nat)
     (hlen : ∀ t ∈ ngramTokens s minG maxG false, t.to - t.from_ ≤ M) :
-    ∃ sn, snippet s M ((ngramTokens s minG maxG false).map (toSTok sc)) = some sn ∧
+    ∃ sn, snippet mode s M ((ngramTokens s minG maxG false).map (toSTok sc)) = some sn ∧
       (∀ h ∈ sn.hl, h.1 ≤ h.2 ∧ h.2 ≤ byteLen sn.fragment ∧
         IsBoundary sn.fragment h.1 ∧ IsBoundary sn.fragment h.2) ∧
       ∃ out, toHtml sn = some out := by
@@ -276,22 +303,22 @@ theorem C19_ngram_analyzer_snippet_safe_partial (s : Text) (hv : ∀ c ∈ s, c.
 
 /-- … in closed form: `max_num_chars ≥ 4 · max_gram` suffices (e.g. the default 150 with every
 `max_gram ≤ 37`); the length bound then follows from `C19_fragment_length_partial` -/
-theorem C19_ngram_analyzer_snippet_safe (s : Text) (hv : ∀ c ∈ s, c.code < 0x110000)
+theorem C19_ngram_analyzer_snippet_safe (mode : Nat) (s : Text) (hv : ∀ c ∈ s, c.code < 0x110000)
     (minG maxG : Nat) (hmin : 0 < minG) (hle : minG ≤ maxG) (M : Nat) (hM : 4 * maxG ≤ M)
     (sc : Token → Option Nat) :
-    ∃ sn, snippet s M ((ngramTokens s minG maxG false).map (toSTok sc)) = some sn ∧
+    ∃ sn, snippet mode s M ((ngramTokens s minG maxG false).map (toSTok sc)) = some sn ∧
       (∀ h ∈ sn.hl, h.1 ≤ h.2 ∧ h.2 ≤ byteLen sn.fragment ∧
         IsBoundary sn.fragment h.1 ∧ IsBoundary sn.fragment h.2) ∧
       ∃ out, toHtml sn = some out :=
-  C19_ngram_analyzer_snippet_safe_partial s hv minG maxG hmin hle M sc
+  C19_ngram_analyzer_snippet_safe_partial mode s hv minG maxG hmin hle M sc
     (fun t ht => Nat.le_trans (ngram_token_len s hv minG maxG hmin hle false t ht) hM)
 
 /-- if no single token is longer than `max_num_chars` bytes, the fragment has at most
 `max_num_chars` bytes, hence at most `max_num_chars` characters -/
-theorem C19_fragment_length_partial (s : Text) (M : Nat) (ts : List STok) (hc : SContract s ts)
+theorem C19_fragment_length_partial (mode : Nat) (s : Text) (M : Nat) (ts : List STok) (hc : SContract s ts)
     (hlen : ∀ t ∈ ts, t.to - t.from_ ≤ M) :
-    ∃ sn, snippet s M ts = some sn ∧ byteLen sn.fragment ≤ M ∧ sn.fragment.length ≤ M := by
-  obtain ⟨frags, e, hf⟩ := search_P3 s M ts hc hlen
+    ∃ sn, snippet mode s M ts = some sn ∧ byteLen sn.fragment ≤ M ∧ sn.fragment.length ≤ M := by
+  obtain ⟨frags, e, hf⟩ := search_P3 mode s M ts hc hlen
   simp only [snippet, e]
   cases hb : selectBest frags with
   | none => exact ⟨⟨[], []⟩, rfl, by simp [byteLen], by simp⟩
@@ -304,50 +331,54 @@ theorem C19_fragment_length_partial (s : Text) (M : Nat) (ts : List STok) (hc : 
     have := length_le_byteLen (sliceFrom 0 s f.start f.stop)
     simp only; omega
 
-/-- DESIGN S7: text `abcdefghij klm`, query `abcdefghij`, `max_num_chars = 3`: the first token of
-a fragment is added unconditionally, the fragment is 10 bytes long -/
+/-- DESIGN S7 (holds for the code in either mode): text `abcdefghij klm`, query `abcdefghij`,
+`max_num_chars = 3`: the first token of a fragment is added unconditionally, the fragment is 10
+bytes long -/
 theorem C19_long_token_counterexample :
     ∃ (M : Nat) (ts : List STok) (f : Frag),
-      searchFragments M ts = some [f] ∧ f.stop - f.start > M := by
+      searchFragments stopMode M ts = some [f] ∧ f.stop - f.start > M := by
   refine ⟨3, [⟨0, 10, some 8⟩, ⟨11, 14, none⟩], ⟨8, 0, 10, [(0, 10)]⟩, ?_, ?_⟩ <;> decide
 
-/-- text `abcd`, all n-grams (1,3), terms a, ab, abc, b, bc, `max_num_chars = 2`: the token
-contract holds but the end offsets are not monotone; the selected snippet is `ab` with a highlight
-0..3 outside it, and `to_html` panics -/
-theorem C19_highlight_outside_counterexample :
+/-- while `try_add_token` assigns the stop offset plainly (`stopMode = 0`): text `abcd`, all
+n-grams (1,3), terms a, ab, abc, b, bc, `max_num_chars = 2`: the token contract holds but the end
+offsets are not monotone; the selected snippet is `ab` with a highlight 0..3 outside it, and
+`to_html` panics -/
+theorem C19_highlight_outside_counterexample (hplain : stopMode = 0) :
     ∃ (s : Text) (M : Nat) (ts : List STok) (sn : Snippet),
-      SContract s ts ∧ snippet s M ts = some sn ∧ byteLen sn.fragment = 2 ∧ (0, 3) ∈ sn.hl ∧
-      toHtml sn = none := by
+      SContract s ts ∧ snippet stopMode s M ts = some sn ∧ byteLen sn.fragment = 2 ∧
+      (0, 3) ∈ sn.hl ∧ toHtml sn = none := by
+  rw [hplain]
   refine ⟨[⟨97, true⟩, ⟨98, true⟩, ⟨99, true⟩, ⟨100, true⟩], 2,
     [⟨0, 1, some 1⟩, ⟨0, 2, some 1⟩, ⟨0, 3, some 1⟩, ⟨1, 2, some 1⟩, ⟨1, 3, some 1⟩, ⟨1, 4, none⟩,
      ⟨2, 3, none⟩, ⟨2, 4, none⟩, ⟨3, 4, none⟩],
     ⟨[⟨97, true⟩, ⟨98, true⟩], [(0, 3), (1, 2)]⟩, ⟨by decide, by decide⟩, by decide, by decide,
     by decide, by decide⟩
 
-/-- the same failure with the default `max_num_chars = 150` and no over-long token: n-grams (1,3)
-of `abcd` behind a stop-word filter that removes `d` and `cd` — the stream ends with (2,3), the
-term token (1,4) ends after the fragment's stop offset -/
-theorem C19_highlight_outside_filtered_counterexample :
+/-- the same failure (again only while `stopMode = 0`) with the default `max_num_chars = 150` and
+no over-long token: n-grams (1,3) of `abcd` behind a stop-word filter that removes `d` and `cd` —
+the stream ends with (2,3), the term token (1,4) ends after the fragment's stop offset -/
+theorem C19_highlight_outside_filtered_counterexample (hplain : stopMode = 0) :
     ∃ (s : Text) (ts : List STok) (sn : Snippet),
-      SContract s ts ∧ (∀ t ∈ ts, t.to - t.from_ ≤ 150) ∧ snippet s 150 ts = some sn ∧
+      SContract s ts ∧ (∀ t ∈ ts, t.to - t.from_ ≤ 150) ∧ snippet stopMode s 150 ts = some sn ∧
       byteLen sn.fragment = 3 ∧ sn.hl = [(1, 4)] ∧ toHtml sn = none := by
+  rw [hplain]
   refine ⟨[⟨97, true⟩, ⟨98, true⟩, ⟨99, true⟩, ⟨100, true⟩],
     [⟨0, 1, none⟩, ⟨0, 2, none⟩, ⟨0, 3, none⟩, ⟨1, 2, none⟩, ⟨1, 3, none⟩, ⟨1, 4, some 1⟩, ⟨2, 3, none⟩],
     ⟨[⟨97, true⟩, ⟨98, true⟩, ⟨99, true⟩], [(1, 4)]⟩, ⟨by decide, by decide⟩, by decide, by decide,
     by decide, rfl, by decide⟩
 
 /-- the raw highlight list has one range per matching token: with overlapping tokens (n-grams)
-the ranges overlap (only `to_html` collapses them) -/
+the ranges overlap (only `to_html` collapses them); the same in either mode -/
 theorem C19_raw_highlights_overlap_counterexample :
     ∃ (s : Text) (ts : List STok) (sn : Snippet),
-      SContract s ts ∧ snippet s 150 ts = some sn ∧ sn.hl = [(0, 1), (0, 2), (1, 2)] := by
+      SContract s ts ∧ snippet stopMode s 150 ts = some sn ∧ sn.hl = [(0, 1), (0, 2), (1, 2)] := by
   refine ⟨[⟨97, true⟩, ⟨98, true⟩], [⟨0, 1, some 1⟩, ⟨0, 2, some 1⟩, ⟨1, 2, some 1⟩],
     ⟨[⟨97, true⟩, ⟨98, true⟩], [(0, 1), (0, 2), (1, 2)]⟩, ⟨by decide, by decide⟩, by decide, rfl⟩
 
 /-- the monotonicity clause of the contract is needed: a stream whose `offset_from` decreases
 makes `next.offset_to - fragment.start_offset` underflow -/
 theorem C19_offset_underflow_counterexample :
-    searchFragments 0 [⟨5, 6, none⟩, ⟨0, 1, none⟩] = none := by decide
+    searchFragments stopMode 0 [⟨5, 6, none⟩, ⟨0, 1, none⟩] = none := by decide
 
 /-- `to_html`, whenever it does not panic: un-escaping and stripping the tags gives the fragment,
 and no `<`, `>`, `&`, `"`, `'` is copied verbatim -/
@@ -371,10 +402,10 @@ theorem C19_to_html_no_panic (sn : Snippet)
 
 /-- every highlight of the snippet is the range (shifted into fragment coordinates) of a token
 whose lower-cased text is a query term -/
-theorem C19_highlights_are_term_tokens (s : Text) (M : Nat) (ts : List STok) (hc : SContract s ts) :
-    ∃ sn a, snippet s M ts = some sn ∧
+theorem C19_highlights_are_term_tokens (mode : Nat) (s : Text) (M : Nat) (ts : List STok) (hc : SContract s ts) :
+    ∃ sn a, snippet mode s M ts = some sn ∧
       ∀ h ∈ sn.hl, ∃ t ∈ ts, t.score.isSome = true ∧ a ≤ t.from_ ∧ h = (t.from_ - a, t.to - a) := by
-  obtain ⟨frags, e, hf⟩ := search_P4 s M ts hc
+  obtain ⟨frags, e, hf⟩ := search_P4 mode s M ts hc
   simp only [snippet, e]
   cases hb : selectBest frags with
   | none => exact ⟨⟨[], []⟩, 0, rfl, by simp⟩
@@ -393,10 +424,10 @@ theorem C19_highlights_are_term_tokens (s : Text) (M : Nat) (ts : List STok) (hc
 
 /-- with tokens that do not overlap (simple, whitespace, raw, regex tokenizers under any filter
 that does not duplicate tokens) the raw highlight list is sorted and pairwise disjoint -/
-theorem C19_raw_highlights_disjoint_partial (s : Text) (M : Nat) (ts : List STok)
+theorem C19_raw_highlights_disjoint_partial (mode : Nat) (s : Text) (M : Nat) (ts : List STok)
     (hc : SContract s ts) (hd : ts.Pairwise (fun a b => a.to ≤ b.from_)) :
-    ∃ sn, snippet s M ts = some sn ∧ sn.hl.Pairwise (fun a b => a.2 ≤ b.1) := by
-  obtain ⟨frags, e, hf⟩ := search_P5 s M ts hc hd
+    ∃ sn, snippet mode s M ts = some sn ∧ sn.hl.Pairwise (fun a b => a.2 ≤ b.1) := by
+  obtain ⟨frags, e, hf⟩ := search_P5 mode s M ts hc hd
   simp only [snippet, e]
   cases hb : selectBest frags with
   | none => exact ⟨⟨[], []⟩, rfl, by simp⟩
@@ -415,10 +446,10 @@ theorem C19_raw_highlights_disjoint_partial (s : Text) (M : Nat) (ts : List STok
 that never decrease) + any filter chain, any text, any query terms, any `max_num_chars`: `snippet`
 does not panic, every highlight lies inside the fragment on character boundaries of the fragment,
 and `to_html` does not panic -/
-theorem C19_analyzer_snippet_safe (s : Text) (ts0 : List Token) (hc : Contract s ts0)
+theorem C19_analyzer_snippet_safe (mode : Nat) (s : Text) (ts0 : List Token) (hc : Contract s ts0)
     (hto : ts0.Pairwise (fun a b => a.to ≤ b.to)) (fs : List Filter) (M : Nat)
     (sc : Token → Option Nat) :
-    ∃ sn, snippet s M ((applyChain fs ts0).map (toSTok sc)) = some sn ∧
+    ∃ sn, snippet mode s M ((applyChain fs ts0).map (toSTok sc)) = some sn ∧
       (∀ h ∈ sn.hl, h.1 ≤ h.2 ∧ h.2 ≤ byteLen sn.fragment ∧
         IsBoundary sn.fragment h.1 ∧ IsBoundary sn.fragment h.2) ∧
       ∃ out, toHtml sn = some out := by
@@ -437,37 +468,37 @@ theorem C19_analyzer_snippet_safe (s : Text) (ts0 : List Token) (hc : Contract s
 
 /-- … instantiated: every analyzer built from SimpleTokenizer or WhitespaceTokenizer (any scanning
 predicate) and any filter chain — in particular tantivy's `default` and `en_stem` analyzers -/
-theorem C19_scan_analyzer_snippet_safe (p : Cp → Bool) (fs : List Filter) (s : Text) (M : Nat)
+theorem C19_scan_analyzer_snippet_safe (mode : Nat) (p : Cp → Bool) (fs : List Filter) (s : Text) (M : Nat)
     (sc : Token → Option Nat) :
-    ∃ sn, snippet s M ((applyChain fs (scanTokens p s)).map (toSTok sc)) = some sn ∧
+    ∃ sn, snippet mode s M ((applyChain fs (scanTokens p s)).map (toSTok sc)) = some sn ∧
       (∀ h ∈ sn.hl, h.1 ≤ h.2 ∧ h.2 ≤ byteLen sn.fragment ∧
         IsBoundary sn.fragment h.1 ∧ IsBoundary sn.fragment h.2) ∧
       ∃ out, toHtml sn = some out := by
   obtain ⟨hc, _, hp⟩ := scanTokens_contract p s
-  refine C19_analyzer_snippet_safe s _ hc ?_ fs M sc
+  refine C19_analyzer_snippet_safe mode s _ hc ?_ fs M sc
   refine hp.imp_of_mem ?_
   intro a b _ hb hab
   have := (hc.inb b hb).1
   omega
 
 /-- … RawTokenizer + any filter chain -/
-theorem C19_raw_analyzer_snippet_safe (fs : List Filter) (s : Text) (M : Nat)
+theorem C19_raw_analyzer_snippet_safe (mode : Nat) (fs : List Filter) (s : Text) (M : Nat)
     (sc : Token → Option Nat) :
-    ∃ sn, snippet s M ((applyChain fs (rawTokens s)).map (toSTok sc)) = some sn ∧
+    ∃ sn, snippet mode s M ((applyChain fs (rawTokens s)).map (toSTok sc)) = some sn ∧
       (∀ h ∈ sn.hl, h.1 ≤ h.2 ∧ h.2 ≤ byteLen sn.fragment ∧
         IsBoundary sn.fragment h.1 ∧ IsBoundary sn.fragment h.2) ∧
       ∃ out, toHtml sn = some out :=
-  C19_analyzer_snippet_safe s _ (C19_raw_offsets s).1 (by simp [rawTokens]) fs M sc
+  C19_analyzer_snippet_safe mode s _ (C19_raw_offsets s).1 (by simp [rawTokens]) fs M sc
 
 /-- … RegexTokenizer (any matcher satisfying `RegexOk`) + any filter chain -/
-theorem C19_regex_analyzer_snippet_safe (fs : List Filter) (s : Text) (ms : List (Nat × Nat))
+theorem C19_regex_analyzer_snippet_safe (mode : Nat) (fs : List Filter) (s : Text) (ms : List (Nat × Nat))
     (h : RegexOk s 0 ms) (M : Nat) (sc : Token → Option Nat) :
-    ∃ sn, snippet s M ((applyChain fs (regexTokens s ms)).map (toSTok sc)) = some sn ∧
+    ∃ sn, snippet mode s M ((applyChain fs (regexTokens s ms)).map (toSTok sc)) = some sn ∧
       (∀ h ∈ sn.hl, h.1 ≤ h.2 ∧ h.2 ≤ byteLen sn.fragment ∧
         IsBoundary sn.fragment h.1 ∧ IsBoundary sn.fragment h.2) ∧
       ∃ out, toHtml sn = some out := by
   obtain ⟨hc, _, hp⟩ := C19_regex_offsets s ms h
-  refine C19_analyzer_snippet_safe s _ hc ?_ fs M sc
+  refine C19_analyzer_snippet_safe mode s _ hc ?_ fs M sc
   refine hp.imp_of_mem ?_
   intro a b _ hb hab
   have := (hc.inb b hb).1
@@ -494,6 +525,9 @@ example : SContract [⟨97, true⟩, ⟨233, true⟩, ⟨32, false⟩, ⟨98, tr
     ∧ ∀ t ∈ [(⟨0, 3, some 4⟩ : STok), ⟨4, 5, none⟩], t.to - t.from_ ≤ 3 :=
   ⟨⟨by decide, by decide⟩, by decide, by decide⟩
 example : [(⟨0, 3, some 4⟩ : STok), ⟨4, 5, none⟩].Pairwise (fun a b => a.to ≤ b.from_) := by decide
+-- the two mode hypotheses: exactly one of them holds for the extracted value, both are possible values
+example : stopMode = 0 ∨ stopMode ≠ 0 := by decide
+example : (1 : Nat) ≠ 0 := by decide
 example : RecOkN 0 0 ([(⟨0, 1, some 1⟩ : STok), ⟨0, 3, none⟩, ⟨1, 3, some 2⟩].map (·.to)) := by
   simp [RecOkN]
 example : ∀ t ∈ ngramTokens [⟨97, true⟩, ⟨233, true⟩, ⟨98, true⟩] 1 2 false, t.to - t.from_ ≤ 3 := by
